@@ -232,6 +232,12 @@ Theorem props_unpack_inv : forall pt b p r,
   props_unpack pt b = Ok (p, r) -> bytes_ok b -> props_inv pt p /\ bytes_ok r.
 Proof.
   intros pt b p r H Hb. unfold props_unpack in H.
+  assert (Hempty : props_inv pt props_empty).
+  { destruct (props_inv0_empty pt) as (A & B & C & D & E).
+    split; [exact A|]. split; [exact B|]. split; [exact C|]. split; [exact D|]. split; [exact E|].
+    cbn. discriminate. }
+  destruct b as [|b0 bt] eqn:Eb; [inversion H; subst; split; [exact Hempty|constructor]|].
+  rewrite <- Eb in *. clear Eb b0 bt.
   destruct (read_varint b) as [[n l]| | |] eqn:Ev; cbn [bind] in H; try discriminate.
   apply read_vbi_bytes in Ev; [|assumption].
   destruct (n =? 0).
